@@ -59,6 +59,9 @@ def cases(tier: str, seed: int) -> list[dict]:
             out.append({"sc": "hetero", "kind": kind, "dim": [3, 2][r % 2], "ps": bool(r % 2), "form": ["Ne", "NePg"][r % 2]})
             out.append({"sc": "update", "kind": kind, "dim": [3, 2][r % 2], "ps": bool((r // 2) % 2)})
             out.append({"sc": "walpole", "kind": kind})
+            out.append({"sc": "walpole", "kind": kind, "axes": ["unnormalised", "default", "orthonormal"][r % 3], "form": ["Ne", "NePg", "homog"][(r // 3 + r) % 3]})
+            out.append({"sc": "walpole", "kind": kind, "axes": "unnormalised", "form": ["homog", "Ne", "NePg"][r % 3]})
+            out.append({"sc": "update", "kind": kind, "dim": [2, 3][r % 2], "ps": bool(r % 2), "inplace": True})
         for dim in (2, 3):
             for axes in ["default", "orthonormal", "unnormalised"]:
                 out.append({"sc": "aniso", "dim": dim, "axes": axes, "notation": ["voigt", "mandel"][r % 2], "form": ["homog", "Ne", "NePg"][r % 3]})
@@ -249,7 +252,55 @@ def _random_write(rng, kind, law, p):
     return p
 
 
+def run_update_inplace(case, ctx, rng):
+    """Array-valued parameters written through the caller's own array: the array is updated in place and assigned again
+    (the same object carries new content), or a new array with new content is assigned; the law read next must be the
+    law of the content now held."""
+    kind, dim, ps = case["kind"], case["dim"], case["ps"]
+    key = f"C11/update/{kind}/{dim}D/array-parameter"
+    ctx.default_key = key
+    a1, a2, P = _axes(rng, dim, "orthonormal")
+    p = gmat.law_params(rng, kind)
+    shape = [(4,), (4, 3)][int(rng.integers(2))]
+    names = [k for k in p if not k.startswith("v")]
+    name = names[int(rng.integers(len(names)))]
+    arr = p[name] * rng.uniform(0.8, 1.25, shape)
+    ph = dict(p)
+    ph[name] = arr
+    nw = 0
+    try:
+        with ctx.monitored("no-exception", key + "/raised", expect=(AssertionError,)):
+            with quiet():
+                law = _make(kind, dim, ph, a1, a2, ps)
+                _ = law.C, law.S
+                for step in range(int(rng.integers(2, 5))):
+                    mode = ["same-object", "equal-then-changed", "new-object"][int(rng.integers(3))]
+                    if mode == "same-object":
+                        arr *= rng.uniform(0.7, 1.4, shape)
+                        setattr(law, name, arr)
+                    elif mode == "equal-then-changed":
+                        setattr(law, name, arr.copy())          # equal content: same law
+                        _ = law.C
+                        arr = arr * rng.uniform(0.7, 1.4, shape)
+                        setattr(law, name, arr)
+                    else:
+                        arr = arr * rng.uniform(0.7, 1.4, shape)
+                        setattr(law, name, arr)
+                    nw += 1
+                    q = dict(p)
+                    q[name] = arr.copy()
+                    fresh = _make(kind, dim, q, a1, a2, ps)
+                    ctx.check("update-matches-fresh", relerr(np.asarray(law.C), np.asarray(fresh.C)), 1e-13, key + "/C", step=step, mode=mode, param=name)
+                    ctx.check("update-matches-fresh", relerr(np.asarray(law.S), np.asarray(fresh.S)), 1e-13, key + "/S", step=step, mode=mode, param=name)
+                    ctx.check("parameter-read-back", relerr(np.asarray(getattr(law, name)), arr), 0.0, key + "/read-back", mode=mode)
+    except AssertionError:
+        ctx.event("constructor-rejection")
+    ctx.describe(f"update/{kind}/{dim}D/array-parameter/{len(shape)}", nw > 0, kind=kind, dim=dim, writes=nw, form=["Ne", "NePg"][len(shape) - 1])
+
+
 def run_update(case, ctx, rng):
+    if case.get("inplace"):
+        return run_update_inplace(case, ctx, rng)
     kind, dim, ps = case["kind"], case["dim"], case["ps"]
     key = f"C11/update/{kind}/{dim}D"
     ctx.default_key = key
@@ -331,11 +382,21 @@ def run_hetero(case, ctx, rng):
 
 
 def run_walpole(case, ctx, rng):
+    """C = sum ci Ei, for axes of any length (the basis tensors are built from the stored axis) and for homogeneous or
+    per-element / per-Gauss-point parameters (the decomposition's own assertion only covers the homogeneous case)."""
     kind = case["kind"]
-    key = f"C11/walpole/{kind}"
+    axes = case.get("axes", "orthonormal")
+    form = case.get("form", "homog")
+    key = f"C11/walpole/{kind}" + ("" if (axes, form) == ("orthonormal", "homog") else f"/{axes}/{form}")
     ctx.default_key = key
     p = gmat.law_params(rng, kind)
-    a1, a2, P = _axes(rng, 3, "orthonormal")
+    shape = {"homog": (), "Ne": (4,), "NePg": (4, 3)}[form]
+    if shape:
+        names = [k for k in p if not k.startswith("v")]
+        name = names[int(rng.integers(len(names)))]
+        p = dict(p)
+        p[name] = p[name] * rng.uniform(0.8, 1.25, shape)
+    a1, a2, P = _axes(rng, 3, axes)
     try:
         with ctx.monitored("no-exception", key + "/raised", expect=(AssertionError,)):
             with quiet():
@@ -346,6 +407,6 @@ def run_walpole(case, ctx, rng):
         # the decomposition carries its own consistency assertion: a failure of that assertion is a failure of the decomposition
         ctx.require("walpole-sum", False, key + "/assertion", message=str(e)[:200])
         return
-    rec = np.sum([c * E for c, E in zip(ci, Ei)], 0)
-    ctx.check("walpole-sum", relerr(rec, C), 1e-10, key + "/sum")
-    ctx.describe(f"walpole/{kind}", True, kind=kind, n_terms=len(ci))
+    rec = sum(np.asarray(c, float)[..., None, None] * np.asarray(E) for c, E in zip(ci, Ei))
+    ctx.check("walpole-sum", relerr(np.broadcast_to(rec, C.shape), C), 1e-10, key + "/sum", axes=axes, form=form)
+    ctx.describe(f"walpole/{kind}/{axes}/{form}", True, kind=kind, n_terms=len(ci), axes=axes, form=form)
